@@ -382,6 +382,32 @@ impl RawDoc {
     }
 }
 
+thread_local! {
+    /// when set, the document about to be handed to the library is written here first
+    /// ([sel byte][document]) so that a parent process can name it if this process dies
+    static BEACON: std::cell::RefCell<Option<std::fs::File>> = const { std::cell::RefCell::new(None) };
+}
+fn beacon(sel: u8, bytes: &[u8]) {
+    use std::io::{Seek, SeekFrom, Write};
+    BEACON.with(|b| {
+        if let Some(f) = b.borrow_mut().as_mut() {
+            let mut buf = Vec::with_capacity(bytes.len() + 5);
+            buf.extend_from_slice(&(bytes.len() as u32 + 1).to_le_bytes());
+            buf.push(sel);
+            buf.extend_from_slice(bytes);
+            let _ = f.seek(SeekFrom::Start(0)).and_then(|_| f.write_all(&buf));
+        }
+    });
+}
+fn read_beacon(path: &std::path::Path) -> Option<Vec<u8>> {
+    let b = std::fs::read(path).ok()?;
+    if b.len() < 5 {
+        return None;
+    }
+    let n = u32::from_le_bytes([b[0], b[1], b[2], b[3]]) as usize;
+    b.get(4..4 + n).map(|x| x.to_vec())
+}
+
 fn run_doc(fmt: Fmt, bytes: &[u8], st: &mut Stats, counting: bool, only: Option<&str>, desc: &Value) -> bool {
     let mut ok = true;
     for (fi, name) in FLAVOURS.iter().enumerate() {
@@ -391,6 +417,7 @@ fn run_doc(fmt: Fmt, bytes: &[u8], st: &mut Stats, counting: bool, only: Option<
         if counting {
             st.eval();
         }
+        beacon(fi as u8 + if fmt == Fmt::Cbor { 4 } else { 0 }, bytes);
         crate::hook::install_self_deadlock_detector();
         let r = catch_unwind(AssertUnwindSafe(|| check_named(fi, fmt, bytes)));
         let res = match r {
@@ -548,15 +575,109 @@ fn run_fuzzer(ctx: &mut Ctx, runs: u64, jobs: usize) {
         if data.is_empty() {
             continue;
         }
-        let sel = data[0] as usize;
-        let fmt = if (sel / 4) % 2 == 0 { Fmt::Json } else { Fmt::Cbor };
-        let mut st = Stats::new();
-        let desc = json!({"libfuzzer_artifact": name});
-        let ok = run_doc(fmt, &data[1..], &mut st, false, Some(FLAVOURS[sel % 4]), &desc);
-        if ok {
-            ctx.inconclusive.push(format!("libFuzzer artifact {} does not reproduce in-process", a.display()));
+        judge_file_in_child(ctx, &a, "libFuzzer artifact");
+    }
+}
+
+/// child: one proptest worker; stats go to `out`, the document in flight to `cur`
+pub fn pt_child(seed: u64, stream: u64, cases: u32, out: &str, cur: &str) -> i32 {
+    if let Ok(f) = std::fs::OpenOptions::new().create(true).write(true).truncate(true).open(cur) {
+        BEACON.with(|b| *b.borrow_mut() = Some(f));
+    }
+    let mut st = Stats::new();
+    {
+        let cell = std::cell::RefCell::new(&mut st);
+        let strat = rawdoc_strategy();
+        let minimal = pt::run(seed, stream, cases, &strat, |raw, counting| {
+            if counting {
+                let mut st = cell.borrow_mut();
+                run_raw(raw, &mut st, true)
+            } else {
+                let mut scratch = Stats::new();
+                run_raw(raw, &mut scratch, false)
+            }
+        });
+        drop(cell);
+        if let Some(m) = minimal {
+            let mut only = Stats::new();
+            run_raw(&m, &mut only, false);
+            for (sig, f) in only.findings {
+                st.findings.insert(sig, f);
+            }
         }
-        ctx.stats.merge(st);
+    }
+    match std::fs::write(out, serde_json::to_vec(&st).unwrap_or_default()) {
+        Ok(()) => 0,
+        Err(_) => 2,
+    }
+}
+
+/// child: one document ([sel][bytes] file, the fuzz input layout); prints a Stats JSON
+pub fn one_child(path: &str) -> i32 {
+    let data = std::fs::read(path).unwrap_or_default();
+    if data.is_empty() {
+        return 0;
+    }
+    let sel = data[0] as usize;
+    let fmt = if (sel / 4) % 2 == 0 { Fmt::Json } else { Fmt::Cbor };
+    let mut st = Stats::new();
+    run_doc(fmt, &data[1..], &mut st, false, Some(FLAVOURS[sel % 4]), &json!({"document_file": path}));
+    println!("{}", serde_json::to_string(&st).unwrap_or_default());
+    if st.has_findings() {
+        10
+    } else {
+        0
+    }
+}
+
+/// runs `gv <args>` and returns (exit code or None when killed by a signal, stdout)
+fn child(args: &[String], timeout_s: u64) -> (Option<i32>, String) {
+    let Ok(exe) = std::env::current_exe() else { return (Some(2), String::new()) };
+    let Ok(mut c) = std::process::Command::new(exe).args(args).stdout(std::process::Stdio::piped()).stderr(std::process::Stdio::null()).spawn() else { return (Some(2), String::new()) };
+    let t0 = std::time::Instant::now();
+    loop {
+        match c.try_wait() {
+            Ok(Some(_)) => break,
+            Ok(None) if t0.elapsed().as_secs() > timeout_s => {
+                let _ = c.kill();
+                break;
+            }
+            Ok(None) => std::thread::sleep(std::time::Duration::from_millis(5)),
+            Err(_) => break,
+        }
+    }
+    match c.wait_with_output() {
+        Ok(o) => (o.status.code(), String::from_utf8_lossy(&o.stdout).to_string()),
+        Err(_) => (Some(2), String::new()),
+    }
+}
+
+/// judge one [sel][document] file in a child process: a process that dies on it is a finding
+fn judge_file_in_child(ctx: &mut Ctx, path: &std::path::Path, origin: &str) {
+    let data = std::fs::read(path).unwrap_or_default();
+    if data.is_empty() {
+        return;
+    }
+    let (code, out) = child(&["C13-one".into(), path.display().to_string()], 60);
+    match code {
+        Some(0) => ctx.inconclusive.push(format!("{} {} does not reproduce in a fresh process", origin, path.display())),
+        Some(10) => {
+            if let Some(st) = out.lines().last().and_then(|l| serde_json::from_str::<Stats>(l).ok()) {
+                ctx.stats.merge(st);
+            }
+        }
+        other => {
+            let sel = data[0] as usize;
+            let fmt = if (sel / 4) % 2 == 0 { Fmt::Json } else { Fmt::Cbor };
+            ctx.stats.report(Finding {
+                property: "C13".into(),
+                flavour: FLAVOURS[sel % 4].into(),
+                clause: "deserialize.kills-the-process".into(),
+                signature: format!("{} | {:?} | deserialize.kills-the-process", FLAVOURS[sel % 4], fmt),
+                case: json!({"kind": "document", "flavour": FLAVOURS[sel % 4], "format": fmt, "bytes_hex": data[1..].iter().map(|b| format!("{:02x}", b)).collect::<String>(), "as_value": origin}),
+                detail: format!("a fresh process handed this {}-byte document was terminated (exit {:?}: abort / allocation failure / stack overflow) instead of getting a result", data.len() - 1, other),
+            });
+        }
     }
 }
 
@@ -581,33 +702,46 @@ pub fn run(ctx: &mut Ctx) {
     st.sample_kind("synthetic", 1, || json!({"synthetic_document": synthetic()[12]}));
     ctx.stats.merge(st);
     // regression documents committed in the fuzz corpus are replayed by the fuzzer run itself
-    // (a) proptest
+    // (a) proptest, in child processes: a document that aborts the process (allocation failure, stack
+    // overflow) must not take the check down with it
     let cases = tier.pick(4000u32, 40_000u32);
-    let random = parallel(tier.pick(8, 16), |w| {
-        let mut st = Stats::new();
-        let cell = std::cell::RefCell::new(&mut st);
-        let strat = rawdoc_strategy();
-        let minimal = pt::run(seed, 800 + w as u64, cases, &strat, |raw, counting| {
-            wd.tick();
-            if counting {
-                let mut st = cell.borrow_mut();
-                run_raw(raw, &mut st, true)
-            } else {
-                let mut scratch = Stats::new();
-                run_raw(raw, &mut scratch, false)
-            }
-        });
-        drop(cell);
-        if let Some(m) = minimal {
-            let mut only = Stats::new();
-            run_raw(&m, &mut only, false);
-            for (sig, f) in only.findings {
-                st.findings.insert(sig, f);
+    let nworkers = tier.pick(8usize, 16usize);
+    let work = verif_root().join("out").join("c13");
+    let _ = std::fs::create_dir_all(&work);
+    let results: Vec<(usize, Option<i32>)> = std::thread::scope(|s| {
+        let hs: Vec<_> = (0..nworkers)
+            .map(|w| {
+                let work = work.clone();
+                s.spawn(move || {
+                    let out = work.join(format!("pt{}.json", w));
+                    let cur = work.join(format!("pt{}.cur", w));
+                    let _ = std::fs::remove_file(&out);
+                    let (code, _) = child(&["C13-pt".into(), seed.to_string(), (800 + w).to_string(), cases.to_string(), out.display().to_string(), cur.display().to_string()], 3600);
+                    (w, code)
+                })
+            })
+            .collect();
+        hs.into_iter().map(|h| h.join().unwrap_or((0, Some(2)))).collect()
+    });
+    wd.tick();
+    for (w, code) in results {
+        let out = work.join(format!("pt{}.json", w));
+        match (code, std::fs::read(&out).ok().and_then(|b| serde_json::from_slice::<Stats>(&b).ok())) {
+            (Some(0), Some(st)) => ctx.stats.merge(st),
+            (c, _) => {
+                // the worker died: the document in flight is in its beacon file
+                let cur = work.join(format!("pt{}.cur", w));
+                match read_beacon(&cur) {
+                    Some(doc) => {
+                        let f = work.join(format!("pt{}.doc", w));
+                        let _ = std::fs::write(&f, &doc);
+                        judge_file_in_child(ctx, &f, &format!("proptest worker {} (exit {:?}) died on", w, c));
+                    }
+                    None => ctx.inconclusive.push(format!("proptest worker {} ended with {:?} and left no document", w, c)),
+                }
             }
         }
-        st
-    });
-    ctx.stats.merge(random);
+    }
     // (c) fuzz
     run_fuzzer(ctx, tier.pick(240_000, 16_000_000), tier.pick(8, 16));
 }
